@@ -80,7 +80,8 @@ def decide(prop, tier, seed=0, use_cache=True, out=sys.stdout):
             ev["messages"] = r.get("messages", [])[:5]
         else:
             n_air = r.get("obligations") or r.get("verified") or 0
-            fails_here = [f for f in r["failures"] if (prop in f.get("tags", [])) or not f.get("tags")]
+            any_tag_kinds = pp.get("kinds_any_tag", [])
+            fails_here = [f for f in r["failures"] if (prop in f.get("tags", [])) or not f.get("tags") or f.get("kind") in any_tag_kinds]
             obligations += n_air
             discharged += max(0, n_air - len(fails_here))
             for f in fails_here:
